@@ -2,7 +2,7 @@
    a case is an operation name and a list of generic arguments; the answer is a generic
    output value.  The OCaml driver (eval/driver.ml) only parses / prints these types. *)
 From Coq Require Import String.
-From ArrRs Require Import Base Arr Index Axis.
+From ArrRs Require Import Base Arr Index Axis Broadcast.
 Open Scope string_scope.
 
 Inductive arg :=
@@ -23,6 +23,7 @@ Inductive out :=
 | OErr (e : err)
 | OPanic
 | OFuel
+| OPArr (sh : list nat) (es : list (Z * Z))
 | OList (l : list out)
 | OBad.                                        (* malformed case line / unknown op *)
 
@@ -92,7 +93,22 @@ Definition table_axis : list (string * (list arg -> out)) :=
        | [AA sh es; AZ n] => orarr (cycle_take 0%Z (mka sh es) (Z.to_nat n)) | _ => OBad end)
   ].
 
-Definition table : list (string * (list arg -> out)) := table_index ++ table_axis.
+Definition oparr (a : arr (Z * Z)) : out := OPArr (shape a) (elems a).
+Definition oarrs (l : list (arr Z)) : out := OList (map oarr l).
+Definition mkas (l : list (list Z * list Z)) : list (arr Z) := map (fun p => mka (fst p) (snd p)) l.
+
+Definition table_broadcast : list (string * (list arg -> out)) :=
+  [ ("broadcast", fun args => match args with
+       | [AA s1 e1; AA s2 e2] => out_res oparr (broadcast 0%Z 0%Z (mka s1 e1) (mka s2 e2)) | _ => OBad end)
+  ; ("zip", fun args => match args with
+       | [AA s1 e1; AA s2 e2] => out_res oparr (zip 0%Z (mka s1 e1) (mka s2 e2)) | _ => OBad end)
+  ; ("broadcast_to", fun args => match args with
+       | [AA s1 e1; AL sh] => orarr (broadcast_to 0%Z (mka s1 e1) (nats sh)) | _ => OBad end)
+  ; ("broadcast_arrays", fun args => match args with
+       | [AAs l] => out_res oarrs (broadcast_arrays 0%Z (mkas l)) | _ => OBad end)
+  ].
+
+Definition table : list (string * (list arg -> out)) := table_index ++ table_axis ++ table_broadcast.
 
 Fixpoint lookup (name : string) (t : list (string * (list arg -> out))) : option (list arg -> out) :=
   match t with
